@@ -326,6 +326,419 @@ def stage_oracle_store(rep, rng, cases, extra):
     return bad
 
 
+# ----------------------------------------------------------------------------- Environment.save/load <-> State/EnvJson.v
+def enc_json(j):
+    if j is None:
+        return [0]
+    if isinstance(j, bool):
+        return [1, j]
+    if isinstance(j, int):
+        return [2, j]
+    if isinstance(j, str):
+        return [3, j]
+    if isinstance(j, (list, tuple)):
+        return [4, [enc_json(i) for i in j]]
+    if isinstance(j, dict):
+        return [5, [[k, enc_json(v)] for k, v in j.items()]]
+    raise TypeError(type(j))
+
+
+def d_json(x):
+    t = x[0]
+    if t == 0:
+        return None
+    if t == 1:
+        return x[1] != 0
+    if t == 2:
+        return x[1]
+    if t == 3:
+        return d_str(x[1])
+    if t == 4:
+        return [d_json(i) for i in x[1]]
+    return {d_str(kv[0]): d_json(kv[1]) for kv in x[1]}
+
+
+def json_key_order(j):
+    """JSON value with object key order made explicit (dict equality ignores order)."""
+    if isinstance(j, dict):
+        return ('obj', [(k, json_key_order(v)) for k, v in j.items()])
+    if isinstance(j, list):
+        return [json_key_order(i) for i in j]
+    return j
+
+
+def d_res(f, x):
+    if x[0] == 0:
+        return ('ok', f(x[1]))
+    return ('err',) if x[0] == 1 else ('outside',)
+
+
+def d_path(x):
+    return (d_str(x[0]), d_str(x[1]), x[2] != 0, x[3] != 0)
+
+
+def d_env(x):
+    return (d_path(x[0]), d_str(x[1]), d_str(x[2]), tuple(d_str(i) for i in x[3]), tuple(d_str(i) for i in x[4]),
+            d_path(x[5]), d_path(x[6]), [(d_str(kv[0]), d_opt(d_path, kv[1])) for kv in x[7]],
+            d_opt(d_path, x[8]), [d_path(i) for i in x[9]], (x[10][0] != 0, x[10][1] != 0), x[11] != 0,
+            d_opt(lambda l: [d_str(i) for i in l], x[12]), d_store(x[13]))
+
+
+def c_path(p):
+    return None if p is None else (p.suffix, p.root.name, p.destdir, bool(p.directory))
+
+
+def c_plat(p):
+    return (p.genus, p.species, p.arch)
+
+
+def c_env(env):
+    return (c_path(env.bfgdir), env.backend, str(env.backend_version), c_plat(env.host_platform),
+            c_plat(env.target_platform), c_path(env.srcdir), c_path(env.builddir),
+            [(k.name, c_path(v)) for k, v in env.install_dirs.items()], c_path(env.toolchain.path),
+            [c_path(i) for i in env.mopack], tuple(bool(i) for i in env.library_mode), env.compdb,
+            None if env.extra_args is None else list(env.extra_args), snap(env.variables))
+
+
+COMPS = ['a', 'b c', '.hid', 'x.y', 'é', '..x', 'a~', '-d', 'usr', 'local', "q'", 'lib64', '$v', '...']
+PLATFORMS = [('linux', 'x86_64'), ('linux', 'aarch64'), ('darwin', 'arm64'), ('macos', 'x86_64'), ('android', 'arm'),
+             ('winnt', 'x86_64'), ('cygwin', 'i686'), ('freebsd', 'amd64')]
+ALL_ROOTS = ['srcdir', 'builddir', 'absolute', 'prefix', 'exec_prefix', 'bindir', 'libdir', 'includedir', 'datadir', 'mandir']
+INSTALL_PARENTS = [r for r in ALL_ROOTS if r not in ('srcdir', 'builddir')]
+
+
+def gen_path(rng, roots, rep=None, directory=None):
+    """A Path built by the real constructor (so it is in normal form); None if the constructor refuses."""
+    from bfg9000.path import Path, Root, InstallRoot
+    root = rng.choice(roots)
+    n = rng.choice([0, 1, 1, 2, 2, 3])
+    text = '/'.join(rng.choice(COMPS) for _ in range(n))
+    if root == 'absolute':
+        text = '/' + text
+    if rng.random() < 0.3 and text and not text.endswith('/'):
+        text += '/'
+    r = Root[root] if root in Root.__members__ else InstallRoot[root]
+    destdir = rng.random() < 0.25 and root not in ('srcdir', 'builddir')
+    if directory is None:
+        directory = rng.choice([None, True])
+    try:
+        p = Path(text, r, destdir, directory)
+    except ValueError:
+        return None
+    if rep:
+        rep.count('path.root:' + root)
+        rep.count('path.kind:' + ('dir' if p.directory else 'file') + ('+destdir' if p.destdir else ''))
+    return p
+
+
+def gen_env(rng, rep):
+    from bfg9000 import platforms
+    from bfg9000.environment import Environment, LibraryMode, Toolchain
+    from bfg9000.path import InstallRoot
+    from bfg9000.versioning import Version
+
+    def must(roots, **kw):
+        while True:
+            p = gen_path(rng, roots, rep, **kw)
+            if p is not None:
+                return p
+    env = Environment(must(['absolute', 'srcdir']), rng.choice(['make', 'ninja', 'msbuild']),
+                      Version(rng.choice(['4.3', '1.10.2', '0.9', '4.2.1', '16.11'])),
+                      must(['absolute']), must(['absolute']))
+    hp = rng.choice(PLATFORMS)
+    tp = hp if rng.random() < 0.6 else rng.choice(PLATFORMS)
+    env.host_platform = platforms.host.platform_info(*hp)
+    env.target_platform = platforms.target.platform_info(*tp)
+    names = [i for i in InstallRoot]
+    if rng.random() < 0.3:
+        rng.shuffle(names)
+        names = names[:rng.randint(0, 7)]
+    for k in names:
+        if rng.random() < 0.2:
+            env.install_dirs[k] = None
+            rep.count('env.install_dir:None')
+        else:
+            env.install_dirs[k] = must(INSTALL_PARENTS, directory=True)
+    if rng.random() < 0.5:
+        env.toolchain = Toolchain(must(['absolute', 'srcdir'], directory=None))
+        rep.count('env.toolchain')
+    env.mopack = [must(['absolute', 'srcdir', 'builddir']) for _ in range(rng.choice([0, 0, 1, 3]))]
+    env.library_mode = LibraryMode(rng.random() < 0.5, rng.random() < 0.5)
+    env.compdb = rng.random() < 0.5
+    env.extra_args = None if rng.random() < 0.2 else [rng.choice(VALUES + ['--x', '--y=z']) for _ in range(rng.randint(0, 3))]
+    rep.count('env.extra_args:' + ('None' if env.extra_args is None else 'list'))
+    case = gen_case(rng, maxops=12)
+    _, env.variables = impl_trace(case)
+    return env
+
+
+def real_ext(doc_target=None):
+    """The machine facts Environment.load reads while upgrading."""
+    import platform
+    from bfg9000 import platforms
+    from bfg9000.backends import list_backends
+    from bfg9000.path import InstallRoot
+    bv = []
+    for name, b in list_backends().items():
+        bv.append([name, str(b.version())])
+    try:
+        tp = platforms.target.from_json(doc_target) if isinstance(doc_target, dict) else \
+            platforms.target.platform_info(doc_target)
+        dd = tp.install_dirs[InstallRoot.datadir].to_json()
+        md = tp.install_dirs[InstallRoot.mandir].to_json()
+    except Exception:
+        dd = md = None
+    return [bv, platform.machine(), enc_json(dd), enc_json(md)]
+
+
+def downgrade(data, v):
+    """Rewrites a v17 `data` object into the format of version v (inverse of the upgrade steps, on what v can express)."""
+    d = json.loads(json.dumps(data))
+    if v < 17:
+        d['install_dirs'].pop('datadir', None)
+        d['install_dirs'].pop('mandir', None)
+    if v < 16:
+        del d['compdb']
+    if v < 15:
+        d['initial_variables'] = d['variables']['initial']
+        d['variables'] = d['variables']['current']
+        del d['mopack']
+    if v < 14:
+        d['host_platform'] = d['host_platform']['species']
+        d['target_platform'] = d['target_platform']['species']
+    if v < 13:
+        del d['initial_variables']
+        del d['toolchain']
+    if v < 12:
+        d['platform'] = d.pop('target_platform')
+        del d['host_platform']
+    if v < 11:
+        for i in ('bfgdir', 'srcdir', 'builddir'):
+            d[i] = d[i][:2]
+        for i in d['install_dirs']:
+            if d['install_dirs'][i] is not None:
+                d['install_dirs'][i] = d['install_dirs'][i][:2]
+    if v < 10:
+        d['install_dirs'].pop('exec_prefix', None)
+        for i in ('bindir', 'libdir'):
+            x = d['install_dirs'].get(i)
+            if x is not None and x[1] == 'exec_prefix':
+                x[1] = 'prefix'
+    if v < 9:
+        del d['library_mode']
+    if v < 8:
+        del d['extra_args']
+    if v < 7:
+        bd = d.pop('bfgdir')
+        d['bfgpath'] = [bd[0] + ('' if bd[0].endswith('/') else '/') + 'bfg9000', bd[1]]
+    if v < 6:
+        d['bfgpath'] = d['bfgpath'][0] if d['bfgpath'][1] == 'absolute' else '/abs/' + d['bfgpath'][0]
+        del d['backend_version']
+    if v < 5:
+        for i in ('srcdir', 'builddir'):
+            d[i] = d[i][0]
+    return d
+
+
+def mutate_doc(rng, doc, rep):
+    """Malformed / unusual documents for the error branches."""
+    doc = json.loads(json.dumps(doc))
+    d = doc['data']
+    kind = rng.choice(['dropkey', 'badroot', 'newer', 'destdir-src', 'badinstall', 'short-libmode', 'null-path', 'extra-key',
+                       'relative-absolute', 'root-override'])
+    rep.count('doc.mutation:' + kind)
+    paths = [k for k in ('bfgdir', 'srcdir', 'builddir') if isinstance(d.get(k), list)]
+    if kind == 'dropkey' and d:
+        del d[rng.choice(sorted(d))]
+    elif kind == 'badroot' and paths:
+        d[rng.choice(paths)][1] = 'nowhere'
+    elif kind == 'newer':
+        doc['version'] = 18
+    elif kind == 'destdir-src' and paths and len(d[paths[0]]) > 2:
+        k = rng.choice(paths)
+        d[k][1] = 'srcdir'
+        d[k][2] = True
+    elif kind == 'badinstall' and isinstance(d.get('install_dirs'), dict):
+        d['install_dirs']['sbindir'] = ['sbin/', 'prefix', False]
+    elif kind == 'short-libmode' and 'library_mode' in d:
+        d['library_mode'] = [True]
+    elif kind == 'null-path' and paths:
+        d[rng.choice(paths)] = None
+    elif kind == 'extra-key':
+        d['future'] = {'x': [1, 'y']}
+    elif kind == 'relative-absolute' and paths:
+        k = rng.choice(paths)
+        d[k][0] = 'rel/dir'
+        d[k][1] = 'absolute'
+    elif kind == 'root-override' and paths:
+        k = rng.choice(paths)
+        d[k][0] = '/over/ride'
+        d[k][1] = 'srcdir'
+    return doc
+
+
+def impl_load(doc, tmp):
+    from bfg9000.environment import Environment
+    with open(os.path.join(tmp, Environment.envfile), 'w') as f:
+        json.dump(doc, f)
+    try:
+        env = Environment.load(tmp)
+    except Exception as e:
+        return ('err',), None, type(e).__name__
+    return ('ok', c_env(env)), env, None
+
+
+def check_env_roundtrip(env, tmp):
+    """Direct oracle on the implementation: save -> load gives an equal configuration. Returns None or a message."""
+    from bfg9000.environment import Environment
+    before = c_env(env)
+    cur, ini = dict(env.variables), dict(env.variables.initial)
+    ini_items = list(env.variables.initial.items())
+    env.save(tmp)
+    env2 = Environment.load(tmp)
+    after = c_env(env2)
+    want = before[:-1] + ((before[-1][0], before[-1][1], None),)
+    if after != want:
+        diff = [i for i, (a, b) in enumerate(zip(after, want)) if a != b]
+        return 'saved and reloaded environment differs in fields %r: before %r, after %r' % (
+            diff, [want[i] for i in diff], [after[i] for i in diff])
+    for a, b in ((env.bfgdir, env2.bfgdir), (env.srcdir, env2.srcdir), (env.builddir, env2.builddir)):
+        if not (a == b):
+            return 'path %r reloaded as %r' % (a, b)
+    if replay_changes(env2.variables.initial, env2.variables.changes) != cur or dict(env2.variables) != cur or \
+            dict(env2.variables.initial) != ini:
+        return 'variables after reload: changes %r do not reproduce %r from %r' % (env2.variables.changes, cur, ini)
+    env2.reload()
+    if dict(env2.variables) != ini or list(env2.variables.items()) != ini_items:
+        return 'reload() after load does not restore the initial variables'
+    return None
+
+
+def stage_w_env(rep, rng, n):
+    tmp = common.scratch('c09env')
+    calls, impl, docs = [], [], []
+    bad = 0
+    try:
+        ext0 = real_ext('linux')
+        for i in range(n):
+            env = gen_env(rng, rep)
+            msg = check_env_roundtrip(env, tmp)
+            doc = json.load(open(os.path.join(tmp, '.bfg_environ')))
+            rep.case('e:' + json.dumps(doc, sort_keys=True), True)
+            if msg:
+                bad += 1
+                rep.fail('Environment: ' + msg, {'kind': 'env', 'document': doc})
+            if i < 2:
+                rep.sample({'stage': 'W:envjson', 'document': doc})
+            variants = [(17, doc)]
+            v = rng.randint(4, 16)           # an older format of the same configuration
+            try:
+                variants.append((v, {'version': v, 'data': downgrade(doc['data'], v)}))
+            except (KeyError, TypeError, IndexError):
+                rep.count('doc.downgrade-not-expressible')
+            if rng.random() < 0.5:
+                v2, d2 = rng.choice(variants)
+                variants.append((v2, mutate_doc(rng, d2, rep)))
+            for v, dv in variants:
+                rep.count('doc.version:%d' % dv.get('version', -1))
+                d = dv['data']
+                tgt = d.get('target_platform', d.get('platform')) if isinstance(d, dict) else None
+                ext = real_ext(tgt) if dv.get('version', 17) < 17 else ext0
+                res, env2, exc = impl_load(dv, tmp)
+                rep.count('doc.load:' + (res[0] if exc is None else 'err:' + exc))
+                rep.case('l:' + json.dumps(dv, sort_keys=True), True)
+                calls.append(('envjson.load', [ext, enc_json(dv)]))
+                impl.append(res)
+                docs.append(dv)
+                if res[0] == 'ok':
+                    # the model saves what it loaded: must be the file the implementation writes for the loaded object
+                    env2.save(tmp)
+                    resaved = json.load(open(os.path.join(tmp, '.bfg_environ')))
+                    calls.append(('envjson.resave', [ext, enc_json(dv)]))
+                    impl.append(('ok', json_key_order(resaved)))
+                    docs.append(dv)
+    finally:
+        shutil.rmtree(tmp, ignore_errors=True)
+
+    def dec(name, r):
+        if name == 'envjson.load':
+            return d_res(d_env, r)
+        return d_res(lambda x: json_key_order(d_json(x)), r)
+
+    raw_dis = common.compare_model(rep, 'W:envjson', calls, impl, dec, vm_limit=25)
+    dis = []
+    outside = 0
+    for (i, call, iv, mv) in raw_dis:
+        if mv == ('outside',):     # a document outside the modelled domain is not a disagreement
+            outside += 1
+            continue
+        dis.append((i, call, iv, mv, docs[i]))
+    rep.stage('W:envjson', outside_domain=outside, disagreements=len(dis), roundtrip_failures=bad)
+    return dis, bad
+
+
+def gen_path_json(rng, rep):
+    """JSON texts for Path.from_json: mostly what to_json writes, some malformed."""
+    p = gen_path(rng, ALL_ROOTS, rep)
+    if p is not None and rng.random() < 0.7:
+        return p.to_json()
+    n = rng.choice([0, 1, 2, 3])
+    text = '/'.join(rng.choice(COMPS + ['.', '..', '', '~', 'C:']) for _ in range(n))
+    if rng.random() < 0.4:
+        text = '/' + text
+    if rng.random() < 0.3:
+        text += '/'
+    return [text, rng.choice(ALL_ROOTS + ['nowhere']), rng.random() < 0.3]
+
+
+def stage_w_path(rep, rng, n):
+    from bfg9000.path import Path
+    calls, impl = [], []
+    bad = 0
+    for _ in range(n):
+        j = gen_path_json(rng, rep)
+        if j[0].startswith('~'):
+            continue            # reads HOME: outside the domain
+        rep.case('p:' + json.dumps(j), True)
+        try:
+            p = Path.from_json(j)
+            r = ('ok', c_path(p))
+            r2 = ('ok', json_key_order(p.to_json()))
+            try:
+                r3 = ('ok', c_path(p.parent()))
+            except ValueError:
+                r3 = ('err',)
+            # direct oracle: to_json / from_json round trip keeps every attribute, including directory
+            if p.suffix.startswith('~') or p.suffix[1:2] == ':' or p.suffix.startswith('//'):
+                # a first component that reads as a home directory / drive / UNC prefix when parsed again:
+                # domain limit of the path (de)serialisation (C12), e.g. Path('./C:', InstallRoot.mandir)
+                rep.count('path.outside-domain-first-component')
+                q = p
+            else:
+                q = Path.from_json(json.loads(json.dumps(p.to_json())))
+            if c_path(q) != c_path(p):
+                bad += 1
+                rep.fail('Path %r is reloaded from its JSON form %r as %r' % (c_path(p), p.to_json(), c_path(q)),
+                         {'kind': 'path', 'json': j})
+        except (ValueError, KeyError):
+            r = r2 = r3 = ('err',)
+        calls.append(('envjson.path_from_json', enc_json(j)))
+        impl.append(r)
+        calls.append(('envjson.path_rejson', enc_json(j)))
+        impl.append(r2)
+        calls.append(('envjson.path_parent', enc_json(j)))
+        impl.append(r3)
+
+    def dec(name, r):
+        if name == 'envjson.path_rejson':
+            return d_res(lambda x: json_key_order(d_json(x)), r)
+        return d_res(d_path, r)
+    raw = common.compare_model(rep, 'W:pathjson', calls, impl, dec, vm_limit=60)
+    dis = [x for x in raw if x[3] != ('outside',)]
+    rep.stage('W:pathjson', outside_domain=len(raw) - len(dis), disagreements=len(dis), roundtrip_failures=bad)
+    return dis, bad
+
+
 # ----------------------------------------------------------------------------- ambient-state read sites
 OS_ATTRS = {'environ', 'environb', 'getenv', 'getenvb', 'getcwd', 'getcwdb', 'putenv', 'unsetenv', 'chdir', 'fchdir'}
 OSPATH_ATTRS = {'expanduser', 'expandvars', 'abspath', 'realpath'}
@@ -460,6 +873,20 @@ def run(rep):
     n = 3000 if thorough else 500
     dis, cases = stage_w_store(rep, rng, n)
     new, gone = stage_ambient_sites(rep)
+    pdis, pbad = stage_w_path(rep, rng, 2000 if thorough else 400)
+    edis, ebad = stage_w_env(rep, rng, 600 if thorough else 80)
+    if pdis and not pbad:
+        i, call, iv, mv = pdis[0]
+        rep.fail('W:pathjson - model and Path.from_json/to_json disagree (%d cases), e.g. %s on %r: impl %r, model %r' % (
+            len(pdis), call[0], d_json(common.parse_sx(common.enc(call[1]))), iv, mv),
+            {'obligation': 'W:pathjson', 'call': call[0], 'json': d_json(common.parse_sx(common.enc(call[1]))),
+             'impl': iv, 'model': mv, 'n_disagreements': len(pdis)}, found_input=False)
+    if edis and not ebad:
+        i, call, iv, mv, doc = edis[0]
+        rep.fail('W:envjson - model and Environment.load/save disagree (%d cases), e.g. %s: impl %r, model %r' % (
+            len(edis), call[0], iv, mv),
+            {'obligation': 'W:envjson', 'call': call[0], 'document': doc, 'impl': iv, 'model': mv,
+             'n_disagreements': len(edis)}, found_input=False)
     found = stage_oracle_store(rep, rng, cases, n * (10 if dis else 1))
     if dis and not found:
         i, call, iv, mv = dis[0]
